@@ -130,7 +130,7 @@ def cases(rng, tier):
 	for data in blocks(rng, tier):
 		for coding in ('gzip', 'deflate'):
 			yield ('zip', coding, pieces_of(rng, data), rng.choice((False, True)))
-	n = 6000 if tier == 'thorough' else 300
+	n = 6000 if tier == 'thorough' else 800
 	for _ in range(n):
 		ln = rng.choice((0, 1, 2, 17, 300, 4096, 5000, 9000))
 		data = bytes(rng.randrange(256) for _ in range(ln)) if rng.random() < 0.5 else bytes(rng.choice(b'ab \n') for _ in range(ln))
@@ -141,7 +141,7 @@ def cases(rng, tier):
 		ln = rng.choice((0, 1, 5, 300, 4096, 4097, 9000))
 		data = bytes(rng.randrange(256) for _ in range(ln)) if rng.random() < 0.5 else bytes(rng.choice(b'ab \n') for _ in range(ln))
 		yield ('zipwire', rng.choice(('gzip', 'deflate')), data, rng.randrange(10 ** 9))
-	n = 20000 if tier == 'thorough' else 1200
+	n = 20000 if tier == 'thorough' else 3000
 	for _ in range(n):
 		b = boundary(rng)
 		yield ('mp', b, tuple(part(rng, b) for _ in range(rng.choice((0, 1, 1, 2, 3, 4)))))
